@@ -90,7 +90,7 @@ def build_isotherms(s):
             # relative pressure p/p0(T) (in % for relative%): 1 bar expressed in units of THIS isotherm's saturation pressure,
             # which the adsorbate API supplies (the library divides / multiplies by the same number)
             pf = 1e5 / float(ads.saturation_pressure(float(temp))) * (100.0 if u["pressure_mode"] == "relative%" else 1.0)
-        k = k_of_t(1.0, s["dH"], temp) / pf          # 1/bar at 298 K -> 1/unit
+        k = k_of_t(10.0 ** s["pmag"], s["dH"], temp) / pf          # 10^pmag / bar at 298 K -> 1/unit
         par = gen_params(s["gen"], n_m, k)
         kw = unit_kwargs(u, float(temp))
         if s["kind"] == "model":
@@ -121,7 +121,7 @@ def main(tier, seed):
     res = tlc.must_pass("EnthalpyMC", timeout=600)
     run.set(states=res["distinct"], transitions=res["states_generated"], tlc_depth=res["depth"], tlc_invariants=["PermOk", "Partition", "Tols"])
     space = tlc.oracle("EnthalpyOracle", [{"k": "scen"}], timeout=600)[0]
-    iso_scen = sorted(space["iso"], key=lambda s: (s["dH"], len(s["temps"]), s["temps"], s["order"], s["gen"], s["kind"], s["units"]["name"]))
+    iso_scen = sorted(space["iso"], key=lambda s: (s["dH"], len(s["temps"]), s["temps"], s["order"], s["gen"], s["kind"], s["units"]["name"], s["pmag"]))
     if len(iso_scen) != 5 * 26 * 3 * 3 * 2 * 5:
         raise MachineryError(f"spec enumerates {len(iso_scen)} isosteric scenarios, expected 11700")
 
@@ -130,14 +130,14 @@ def main(tier, seed):
     # ---- isosteric
     seen = set()
     for i, s in enumerate(iso_scen):
-        key = (s["dH"], tuple(s["temps"]), s["gen"], s["kind"], s["units"]["name"])
+        key = (s["dH"], tuple(s["temps"]), s["gen"], s["kind"], s["units"]["name"], s["pmag"])
         if key in seen:            # "rot" of a pair is its "desc"
             continue
         seen.add(key)
         stride = 1 if thorough else (8 if s["kind"] == "model" else 24)
         if not pick(i, seed, stride):
             continue
-        sig = {"site": "isosteric_enthalpy", "units": s["units"]["name"], "order": s["order"]}
+        sig = {"site": "isosteric_enthalpy", "units": s["units"]["name"], "order": s["order"], "pressure_magnitude": "below 1e-5 bar" if s["pmag"] >= 6 else "ordinary"}
         try:
             isos, n_m = build_isotherms(s)
             default_grid = pick(i + 7, seed, 9)
@@ -185,6 +185,7 @@ def main(tier, seed):
                     loads = [float(v) for v in forward(model, par, targets)]
                     if model == "Langmuir":
                         loads = [0.0] + loads
+                    loads = loads + [1.2 * n_m, 3.0 * n_m]          # above the capacity: no positive model pressure
                     sig = {"site": "enthalpy_sorption_whittaker", "input": "ModelIsotherm", "model": model, "model_pressure_unit": punit}
                     key = ("whit", aname, temp, model, t, kshift, punit)
                     # the description in its OWN pressure unit: K per unit = K per Pa * (Pa per unit)
@@ -324,10 +325,10 @@ def main(tier, seed):
             isosteric_scenarios_run=counts["iso"], isosteric_scenarios_in_spec=len(iso_scen), whittaker_runs=counts["whit"], whittaker_loading_classes=wclasses, whittaker_reported_and_judged_by_class=wreported,
             initial_point_cases=counts["point"], exhaustive=bool(thorough),
             rule="isosteric: dH {5,10,20,40,60} kJ/mol x all 26 subsets (2-5) of {200,250,298,350,400} K x order (asc, desc, rotated) x generator (Langmuir, Toth, DS-Langmuir) x "
-                 "(model isotherm | 300-point isotherm) x 5 unit configurations (3 absolute incl. degC; relative and relative% pressure with n-butane), enumerated by spec/Enthalpy.tla ("
+                 "(model isotherm | 300-point isotherm) x pressure magnitude 10^0/-6/-10/+3 bar (by rotation) x 5 unit configurations (3 absolute incl. degC; relative and relative% pressure with n-butane), enumerated by spec/Enthalpy.tla ("
                  + ("thorough: all" if thorough else "quick: every 8th model / 24th point scenario")
                  + ", offset by the seed); 4 loadings each, every 9th run uses the default 50-point loading grid. Whittaker: N2/CO2/CH4 x 3 subcritical temperatures x "
-                   "(Langmuir, Toth t=0.6, 0.85) x model isotherm expressed in Pa (2 affinities) / kPa / bar / torr (refusal accepted, a returned value must be the closed form) with loadings placed below / at / inside / beyond the range where h_vap exists, plus fitted point isotherms stored in 5 representations (Pa/bar/kPa, relative, relative%, K/degC). "
+                   "(Langmuir, Toth t=0.6, 0.85) x model isotherm expressed in Pa (2 affinities) / kPa / bar / torr (refusal accepted, a returned value must be the closed form) with loadings placed below / at / inside / beyond the range where h_vap exists and above the capacity n_m, plus fitted point isotherms stored in 5 representations (Pa/bar/kPa, relative, relative%, K/degC). "
                    "Initial point: 12 branch layouts x 6 enthalpy patterns (incl. negative, zero and > 400 first values) x 2 branches from the spec. distinct = distinct scenario; initial-point cases whose branch is empty are trivial")
     run.assume("K(T) = K0 exp(dH/RT) with R = 8.314462618 J/(mol K) is computed by the harness (input); ln and real powers of the Whittaker closed form are harness input, "
                "the formula itself (lambda + h_vap + RT, pressure of a loading, omission classes) is evaluated by TLC")
